@@ -39,7 +39,19 @@ Definition secret_component (file c : string) : bool :=
   String.eqb c "to_dict()" ||
   (mem (strip_call c) secret_names && negb (not_secret_in file (strip_call c))).
 
-Definition base_tainted (file n : string) : bool := existsb (secret_component file) (components n).
+(** the authentication configuration objects (namedtuples holding the PSK and the private key): interpolating one of
+    them, or any attribute other than the identity, exposes the credentials through its repr *)
+Fixpoint auth_conf_exposed (cs : list string) : bool :=
+  match cs with
+  | [] => false
+  | c :: rest =>
+      (mem (strip_call c) ["peer_auth"; "my_auth"] &&
+       match rest with n :: _ => negb (String.eqb n "id") | [] => true end)
+      || auth_conf_exposed rest
+  end.
+
+Definition base_tainted (file n : string) : bool :=
+  existsb (secret_component file) (components n) || auth_conf_exposed (components n).
 
 (** [t] is [n], or a proper dotted prefix of it, or [n] is a call of it *)
 Fixpoint is_prefix (p s : string) : option string :=
